@@ -134,6 +134,25 @@ def rule_r1(ctx: Ctx) -> None:
                 n3 += 1
                 if (got != "accept") != want:
                     bad3.append({"list": ["%s port %s" % (d.source_file_path, d.fixed_port_id) for d in order], "found": got, "expected": "collision error" if want else "accept"})
+    # ... and whatever *kind* the bystanders are: subjects and services number their ports separately, so a service may sit
+    # between two colliding messages (in any position of the list) without hiding the collision, and the other way round
+    for names in (("ns.A", "ns.B", "ns.C"), ("ns.A", "ns.A", "ns.C")):
+        for kinds in itertools.product((False, True), repeat=3):
+            for ports in ((5, 5, 5), (5, 5, 6), (5, 6, 5), (6, 5, 5), (5, None, 5)):
+                majors = (1, 2, 1) if names[0] == names[1] else (1, 1, 1)
+                if names[0] == names[1] and kinds[0] != kinds[1]:
+                    continue  # the versions of one name are of one kind (C11.R2's business)
+                defs = [_definition(ctx, nm, ma, 0, k_, p_) for nm, ma, k_, p_ in zip(names, majors, kinds, ports)]
+                want = False
+                for x, y in itertools.combinations(defs, 2):
+                    same_kind = (x._kind_ == "ServiceType") == (y._kind_ == "ServiceType")
+                    must = same_kind and (x.full_name != y.full_name or (x.version.major != y.version.major and x.version.major > 0 and y.version.major > 0))
+                    want = want or (must and x.fixed_port_id is not None and x.fixed_port_id == y.fixed_port_id)
+                for order in itertools.permutations(defs):
+                    got = _outcome(ctx, fn, [list(order)])
+                    n3 += 1
+                    if (got != "accept") != want:
+                        bad3.append({"list": ["%s%s port %s" % (d.source_file_path, " (service)" if d._kind_ == "ServiceType" else "", d.fixed_port_id) for d in order], "found": got, "expected": "collision error" if want else "accept"})
     ctx.count(n3)
     ctx.check(not bad3, fn.short, "lists of three definitions (%d evaluations)" % n3, "a collision between two definitions is found whatever other versions of them are in the list (a port-ID may be added in a newer minor version)", fn.where(), bad3[:3])
 
